@@ -295,8 +295,19 @@ def check(rng, deep):
     # a distinct INITIAL steady state for the stage block: the path starts from the initial steady state's first-stage distribution (same answer as the backward-function block)
     ssh0, sst0 = m.pair_het.steady_state(dict(m.PAIR_CALIB, r=0.02)), m.pair_stage.steady_state(dict(m.PAIR_CALIB, r=0.02))
     n += 1
+    snaps = [{k: np.array(v, copy=True) for k, v in x.toplevel.items()} for x in (sst, sst0)]
+    isnaps = [{(st, k): np.array(v, copy=True) for st, dd in x.internals[m.pair_stage.name].items() if isinstance(dd, dict) for k, v in dd.items() if isinstance(v, np.ndarray) and v.dtype.kind == 'f'} for x in (sst, sst0)]
     a = m.pair_het.impulse_nonlinear(ssh, {'r': np.zeros(T)}, ss_initial=ssh0)
     b = m.pair_stage.impulse_nonlinear(sst, {'r': np.zeros(T)}, ss_initial=sst0)
+    # the transition from a distinct initial steady state must leave both steady states untouched, and a later zero shock WITHOUT ss_initial must return zero
+    n += 1
+    changed = [f'{lab}.{k}' for lab, x, sn in (('ss', sst, snaps[0]), ('ss_initial', sst0, snaps[1])) for k, v in sn.items() if np.asarray(v).dtype.kind == 'f' and not np.array_equal(x.toplevel[k], v, equal_nan=True)]
+    changed += [f'{lab}.internals[{st}][{k}]' for lab, x, sn in (('ss', sst, isnaps[0]), ('ss_initial', sst0, isnaps[1])) for (st, k), v in sn.items()
+                if not np.array_equal(x.internals[m.pair_stage.name][st][k], v, equal_nan=True)]
+    z0 = m.pair_stage.impulse_nonlinear(sst, {'r': np.zeros(T)})
+    if changed or max(np.abs(z0[k]).max() for k in ('A', 'C')) > 1e-8:
+        C.push(out, dict(what='StageBlock.impulse_nonlinear with a distinct initial steady state modified a steady state passed in (a later zero shock no longer returns zero)', input=dict(kind='recursion', block='stage', distinct_initial=True, then='zero shock'),
+                         observed=dict(changed=changed[:4], zero_shock_response=float(max(np.abs(z0[k]).max() for k in ('A', 'C')))), signature=dict(op='ss-mutated', block='stage', distinct_initial=True)))
     dev = max(np.abs(a[k] - b[k]).max() for k in ('A', 'C', 'UC', 'AINC', 'VPU'))
     if dev > 1e-6 or np.abs(b['A']).max() < 1e-4:
         C.push(out, dict(what='with a distinct initial steady state the stage-block path differs from the backward-function block (or ignores the initial distribution)', input=dict(kind='recursion', block='stage', distinct_initial=True),
